@@ -38,7 +38,9 @@ class ZernikeStandard:
            12361175.
     """
 
-    def __init__(self, coeffs=[0 for _ in range(36)]):
+    def __init__(self, coeffs=None):
+        if coeffs is None:  # a list of its own per object, not a shared one
+            coeffs = [0 for _ in range(36)]
         if len(coeffs) > 120:  # partial sum of first 15 natural numbers
             raise ValueError('Number of coefficients is limited to 120.')
 
@@ -173,7 +175,7 @@ class ZernikeFringe(ZernikeStandard):
            University_of_Arizona_indices
     """
 
-    def __init__(self, coeffs=[0 for _ in range(36)]):
+    def __init__(self, coeffs=None):
         super().__init__(coeffs)
 
     def _norm_constant(self, n=0, m=0):
@@ -231,7 +233,7 @@ class ZernikeNoll(ZernikeStandard):
         2. Noll, R. J. (1976). "Zernike polynomials and atmospheric
            turbulence". J. Opt. Soc. Am. 66 (3): 207
     """
-    def __init__(self, coeffs=[0 for _ in range(36)]):
+    def __init__(self, coeffs=None):
         super().__init__(coeffs)
 
     def _norm_constant(self, n=0, m=0):
